@@ -116,6 +116,8 @@ def _exits(stmts):
         return True
     if isinstance(s, ast.If):
         return bool(s.orelse) and _exits(s.body) and _exits(s.orelse)
+    if isinstance(s, ast.Try) and not s.finalbody:
+        return _exits(s.orelse if s.orelse else s.body) and all(_exits(h.body) for h in s.handlers)
     return False
 
 
@@ -187,6 +189,28 @@ class _Expr(ast.NodeTransformer):
                 return ast.Dict(keys=[ast.Constant(k.arg) for k in node.keywords], values=[k.value for k in node.keywords])
             if f.id == "dict" and not node.args and not node.keywords:
                 return ast.Dict(keys=[], values=[])
+            if f.id == "dict" and len(node.args) == 1 and not node.keywords:
+                # dict([(k, v) for ..] + [(k2, v2) for ..])  ->  {**{k: v for ..}, **{k2: v2 for ..}}   (later pairs win either way)
+                parts, todo_ = [], [node.args[0]]
+                while todo_:
+                    x = todo_.pop(0)
+                    if isinstance(x, ast.BinOp) and isinstance(x.op, ast.Add):
+                        todo_ = [x.left, x.right] + todo_
+                    else:
+                        parts.append(x)
+                conv = []
+                for x in parts:
+                    if isinstance(x, (ast.ListComp, ast.GeneratorExp)) and isinstance(x.elt, ast.Tuple) and len(x.elt.elts) == 2:
+                        conv.append(ast.DictComp(key=x.elt.elts[0], value=x.elt.elts[1], generators=x.generators))
+                    elif isinstance(x, ast.List) and x.elts and all(isinstance(e, ast.Tuple) and len(e.elts) == 2 for e in x.elts):
+                        conv.append(ast.Dict(keys=[e.elts[0] for e in x.elts], values=[e.elts[1] for e in x.elts]))
+                    else:
+                        conv = None
+                        break
+                if conv and len(conv) == 1:
+                    return conv[0]
+                if conv:
+                    return ast.Dict(keys=[None] * len(conv), values=conv)
             if f.id in ("list", "set", "dict", "tuple") and len(node.args) == 1 and not node.keywords:
                 a = node.args[0]
                 if isinstance(a, ast.GeneratorExp):
@@ -683,6 +707,11 @@ def _norm_stmt(st, fn_locals):
         return None
     if _is_docstring(st):
         return None
+    if isinstance(st, ast.Raise) and st.exc is not None:
+        for n in ast.walk(st.exc):
+            if isinstance(n, ast.FormattedValue) and isinstance(n.format_spec, ast.JoinedStr) and len(n.format_spec.values) == 1 \
+                    and isinstance(n.format_spec.values[0], ast.Constant) and n.format_spec.values[0].value == "d":
+                n.format_spec = None
     if isinstance(st, ast.Raise) and isinstance(st.exc, ast.Name) and st.exc.id in _class_names():
         # raising a class instantiates it without arguments
         return ast.Raise(exc=ast.Call(func=st.exc, args=[], keywords=[]), cause=st.cause)
@@ -971,15 +1000,18 @@ def _inline_temps(stmts, fn_locals):
     moved = set()
     while i + 2 < len(out):
         s = out[i]
-        if id(s) not in moved and isinstance(s, ast.Assign) and len(s.targets) == 1 and isinstance(s.targets[0], ast.Name) and _simple_pure(s.value) \
+        if id(s) not in moved and isinstance(s, ast.Assign) and len(s.targets) == 1 and isinstance(s.targets[0], ast.Name) \
                 and counts.get(s.targets[0].id, (0, 0, False))[:2] == (1, 1):
             t = s.targets[0].id
             reads = _names_loaded(s.value)
+            pure = _simple_pure(s.value)
             j = i + 1
             while j < len(out):
                 tv = _tgt_val(out[j])
                 if tv is None or tv[0] in reads or tv[0] == t or t in tv[1]:
                     break
+                if not pure and not _local_only(out[j].value):
+                    break       # a value with side effects only travels over assignments that cannot see them (constants and locals)
                 j += 1
             if i + 1 < j < len(out) and any(isinstance(n, ast.Name) and n.id == t for h in _header_of(out[j]) for n in ast.walk(h)):
                 moved.add(id(s))
@@ -1005,6 +1037,12 @@ def _inline_temps(stmts, fn_locals):
                     continue
         i += 1
     return out
+
+
+def _local_only(e):
+    """built from constants and local names only: cannot observe or cause a side effect"""
+    return all(isinstance(n, (ast.Constant, ast.Name, ast.Load, ast.BinOp, ast.UnaryOp, ast.operator, ast.unaryop, ast.Tuple, ast.Compare, ast.cmpop, ast.BoolOp, ast.boolop))
+               for n in ast.walk(e))
 
 
 def _inline_ok(value, header, use):
@@ -1068,7 +1106,7 @@ def _propagate(fn):
                             _RenameAll({t: src}).visit(b)
                         changed = True
                         break
-            if counts[t][0] == 1 and _simple_pure(v) and not later_store and not isinstance(v, (ast.Constant,)) and _stable(v, attr_stores, params) and _size(v) <= 6 and t not in _captured(fn):
+            if counts[t][0] == 1 and _simple_pure(v) and not later_store and not isinstance(v, (ast.Constant,)) and _stable(v, attr_stores, params) and _size(v) <= 12 and t not in _captured(fn):
                 loads = [n for n in order if isinstance(n, ast.Name) and isinstance(n.ctx, ast.Load) and n.id == t]
                 if loads and all(pos[id(n)] > here for n in loads):
                     _remove_stmt(fn, st)
@@ -1595,6 +1633,158 @@ def _kind(fn):
 
 
 # ----------------------------------------------------------------------------------------------------- versions of straight-line names
+def _liveness(fn, skip):
+    """backward liveness over the structured statements: returns {id(store Name node) -> names live just after that definition}
+    (loops by fix point; a `try` body keeps everything its handlers need alive; `skip` names are ignored)"""
+    after_def = {}
+
+    def uses(node):
+        if node is None:
+            return set()
+        out = set()
+        for n in ast.walk(node):
+            if isinstance(n, ast.Name) and isinstance(n.ctx, ast.Load) and n.id not in skip:
+                out.add(n.id)
+        return out
+
+    def defs_of(target):
+        return [n for n in ast.walk(target) if isinstance(n, ast.Name) and isinstance(n.ctx, ast.Store) and n.id not in skip]
+
+    loops = []
+
+    def block(stmts, out, always):
+        for st in reversed(stmts):
+            out = stmt(st, out, always)
+        return out
+
+    def stmt(st, out, always):
+        out = set(out) | always
+        if isinstance(st, ast.Assign):
+            live = set(out)
+            for t in st.targets:
+                for d in defs_of(t):
+                    after_def[id(d)] = set(out)
+                    live.discard(d.id)
+            live |= always
+            for t in st.targets:
+                live |= {n.id for n in ast.walk(t) if isinstance(n, ast.Name) and isinstance(n.ctx, ast.Load) and n.id not in skip}
+            return live | uses(st.value)
+        if isinstance(st, ast.AugAssign):
+            if isinstance(st.target, ast.Name) and st.target.id not in skip:
+                after_def[id(st.target)] = set(out)
+                return out | {st.target.id} | uses(st.value)
+            return out | uses(st.target) | uses(st.value)
+        if isinstance(st, ast.AnnAssign):
+            live = set(out)
+            if st.value is not None:
+                for d in defs_of(st.target):
+                    after_def[id(d)] = set(out)
+                    live.discard(d.id)
+            return live | always | uses(st.value)
+        if isinstance(st, ast.Return):
+            return uses(st.value) | always
+        if isinstance(st, ast.Raise):
+            return uses(st.exc) | uses(st.cause) | always
+        if isinstance(st, ast.Break):
+            return set(loops[-1][1]) | always if loops else out
+        if isinstance(st, ast.Continue):
+            return set(loops[-1][0]) | always if loops else out
+        if isinstance(st, ast.If):
+            return uses(st.test) | block(st.body, out, always) | block(st.orelse, out, always)
+        if isinstance(st, (ast.While, ast.For)):
+            after = block(st.orelse, out, always) if st.orelse else set(out)
+            head = set(after) | (uses(st.test) if isinstance(st, ast.While) else set())
+            for _ in range(4):
+                loops.append((head, out))
+                body_in = block(st.body, head, always)
+                loops.pop()
+                if isinstance(st, ast.For):
+                    for d in defs_of(st.target):
+                        after_def[id(d)] = set(body_in)
+                        body_in = body_in - {d.id}
+                    new_head = after | body_in
+                else:
+                    new_head = after | body_in | uses(st.test)
+                if new_head == head:
+                    break
+                head = new_head
+            return head | (uses(st.iter) if isinstance(st, ast.For) else set())
+        if isinstance(st, ast.With):
+            live = block(st.body, out, always)
+            for it in st.items:
+                if it.optional_vars is not None:
+                    for d in defs_of(it.optional_vars):
+                        after_def[id(d)] = set(live)
+                        live = live - {d.id}
+                live |= uses(it.context_expr)
+            return live
+        if isinstance(st, ast.Try):
+            fin_in = block(st.finalbody, out, always) if st.finalbody else set(out)
+            h_in = set()
+            for h in st.handlers:
+                hb = block(h.body, fin_in, always)
+                if h.name and h.name not in skip:
+                    hb = hb - {h.name}
+                h_in |= hb | uses(h.type)
+            tail = block(st.orelse, fin_in, always) if st.orelse else fin_in
+            return block(st.body, tail, always | h_in) | h_in
+        if isinstance(st, (ast.FunctionDef, ast.AsyncFunctionDef, ast.ClassDef)):
+            return out
+        return out | uses(st)
+    block(fn.body, set(), set())
+    return after_def
+
+
+def _coalesce(fn):
+    """copy coalescing: for a copy `t = s` between two locals (or a parameter) whose live ranges do not interfere -- no definition of one
+    while the other is live -- t and s are the same variable: rename t to s and drop the copy.  (Run after _webs, so a name is a web.)"""
+    params = {a.arg for a in fn.args.posonlyargs + fn.args.args + fn.args.kwonlyargs}
+    skip = set(_captured(fn))
+    for n in ast.walk(fn):
+        if isinstance(n, (ast.Global, ast.Nonlocal)):
+            skip |= set(n.names)
+        if isinstance(n, ast.Name) and isinstance(n.ctx, ast.Del):
+            skip.add(n.id)
+    for _ in range(12):
+        counts = _local_counts(fn)
+        after_def = _liveness(fn, skip)
+        def_sites = {}
+        for n in ast.walk(fn):
+            if isinstance(n, ast.Name) and isinstance(n.ctx, ast.Store) and n.id not in skip:
+                def_sites.setdefault(n.id, []).append(n)
+        done = False
+        for st in _all_simple_assigns(fn):
+            t = st.targets[0].id
+            if not isinstance(st.value, ast.Name):
+                continue
+            s_ = st.value.id
+            if t == s_:
+                _remove_stmt(fn, st)
+                done = True
+                break
+            if t in skip or s_ in skip or t in params or (s_ not in counts and s_ not in params) or t not in counts:
+                continue
+            ok = True
+            for d in def_sites.get(t, []):
+                if d is st.targets[0]:
+                    continue
+                if s_ in after_def.get(id(d), set()):
+                    ok = False
+            for d in def_sites.get(s_, []):
+                if t in after_def.get(id(d), set()):
+                    ok = False
+            # exception handler names / loop targets are defined implicitly: stay away from them
+            if any(isinstance(n, ast.ExceptHandler) and n.name in (t, s_) for n in ast.walk(fn)):
+                ok = False
+            if ok:
+                _remove_stmt(fn, st)
+                _RenameAll({t: s_}).visit(fn)
+                done = True
+                break
+        if not done:
+            break
+
+
 def _webs(fn):
     """Split every local name (and parameter) into its def-use webs and give each web its own name.
 
@@ -1938,6 +2128,7 @@ def normal_ast(node, helpers=None, in_class=False, single_base=None, depth=0):
         for _ in range(4):
             before = _dump(node)
             _webs(node)
+            _coalesce(node)
             _propagate(node)
             node.body = _cond_assign(node.body, params)
             counts = _local_counts(node)
@@ -1967,7 +2158,7 @@ def normal_ast(node, helpers=None, in_class=False, single_base=None, depth=0):
         node = _RenameComp().visit(node)
         node.decorator_list = [d for d in node.decorator_list]
         return node
-    if isinstance(node, ast.AnnAssign) and node.value is not None and not in_class:
+    if isinstance(node, ast.AnnAssign) and node.value is not None and (not in_class or in_class == "plain"):
         node = ast.Assign(targets=[node.target], value=node.value)
     node = _Expr().visit(node)
     node = _RenameComp().visit(node)
@@ -2271,7 +2462,8 @@ def substitute(tree, ref, stats=None):
             for st, old in zip(sts, olds):
                 if k[0] == "class":
                     sb = st.bases[0].id if len(st.bases) == 1 and isinstance(st.bases[0], ast.Name) and len(old.bases) == 1 and ast.unparse(old.bases[0]) == st.bases[0].id else None
-                    scope(st.body, old.body, path + [k[1]], True, (k[1], sb))
+                    is_dc = any("dataclass" in ast.unparse(d) for d in st.decorator_list + old.decorator_list) or any("PHC" in ast.unparse(b) or "Info" in ast.unparse(b) for b in st.bases)
+                    scope(st.body, old.body, path + [k[1]], True if is_dc else "plain", (k[1], sb))
                     continue
                 if _dump(st) == _dump(old):
                     continue
